@@ -12,6 +12,7 @@ From P2 Require Import Base.Prelude Heap.ListHeap Heap.ListHeapProofs Heap.FuncS
 From P2 Require Import Sem.Num Sem.Syntax Sem.Ops Sem.Lib Sem.Ref Sem.Gen Sem.Sim Heap.FuncStackProofs.
 From P2 Require Lib.Stream Lib.Iterate Lib.IterateProofs.
 From P2 Require Import Heap.MapHeap Heap.MapHeapProofs Heap.MapState Heap.MapStateProofs.
+From P2 Require Import Heap.MixState Heap.MixStateProofs Heap.MixSpecProofs.
 
 (* an evaluation is a sequence of heap steps whose outcome is determined by (F, args, j) and the CONTENT of the
    constants - never by their representation (itemsPresent / len / cap / which array): started in ANY heap h2
@@ -69,6 +70,38 @@ Proof. exact map_eval_history_independent_lemma. Qed.
 Theorem C10_map_generated_history_independent : forall p h ops args, mgenerate p = Some h ->
   meval_on (fold_left mstep ops h) (mh_maps h) args (mp_body p) = meval_on h (mh_maps h) args (mp_body p).
 Proof. exact map_generated_history_independent_lemma. Qed.
+
+(* programs MIXING lists and maps, map literals built per evaluation, LISTS OF LISTS (Heap/MixState.v: list heap and
+   map heap in ONE state; a map entry / an element of a list of lists holds the handle of a shared list object, so a
+   list constant is reachable through the constant table, through constant maps, through the maps an evaluation
+   builds and through outer list constants; an inner list obtained by index is appended to / materialised in place).  All histories, no bound:
+   evaluations of this and other functions of the generator (failing ones, list results dropped / half consumed),
+   further Generate calls, any other list operations and any other map operations on the two heaps *)
+Theorem C10_mixed_eval_history_independent : forall cp g hist k args j,
+  xgstate_ok g -> k < length (xg_funcs g) ->
+  xeval_after cp g hist k args j = xeval_after cp g [] k args j.
+Proof. exact mixed_eval_history_independent_lemma. Qed.
+
+(* every state a generator can reach satisfies the hypothesis of the theorem above *)
+Theorem C10_mixed_reachable_states_ok : forall cp hist, xgstate_ok (xrun_hist cp new_xgenerator hist).
+Proof. exact mixed_reachable_ok_lemma. Qed.
+
+(* the outcome is determined by (function, arguments, consumption), the ENTRIES its constant maps show and the CONTENT
+   of its list constants - never by the representation of either heap: started in any list heap reachable from h0 by
+   good steps and any map heap reachable from mh0 by map operations it gives what the function denotes on (h0, mh0) *)
+Theorem C10_mixed_outcome_depends_on_content_only : forall cp h0 mh0 F args j h mh,
+  inv h0 -> mwf mh0 -> xfunc_ok h0 mh0 F -> good h0 h -> mgood mh0 mh ->
+  snd (xeval_fn cp h mh F args j) = xfunc_denotes h0 mh0 F args j.
+Proof. exact mixed_outcome_content_only_lemma. Qed.
+
+(* ... and for well-typed programs of the mixed fragment the outcome is the one the SPECIFICATION assigns to the PROGRAM
+   TEXT (sp_xprog: map entries and lists of lists hold content; no heap, no handle, no history): Generate(p) at any
+   point of any history, then any further history on both heaps, then Eval(args) consuming j elements *)
+Theorem C10_mixed_generated_function_meets_spec : forall cp before p hist args j o,
+  xprog_wt p = true -> sp_xprog p args j = Some o ->
+  let g := xrun_hist cp new_xgenerator before in
+  xeval_after cp (xrun_event cp g (XEGen p)) hist (length (xg_funcs g)) args j = o.
+Proof. exact mixed_generated_meets_spec_reachable_lemma. Qed.
 
 (* traversal state is per ITERATION, not per list value (Lib/Stream.v pipelines: map, accept, combine, number,
    iir, compact, skip, top over numbers / literals / +; consumers first, single, size, present, indexWhere, ~,
@@ -140,6 +173,77 @@ Example C10_failing_materialisation_nonvacuous :
   eval_after cp (run_event cp new_generator (EGen q)) [] 0 [5]%Z 9 = FuncState.OErr.
 Proof. vm_compute. repeat split; reflexivity. Qed.
 
+(* non-vacuity and discrimination for the mixed fragment:
+   `let c0=[1,2]; let c1=c0.append(3); let m0={l:c1,n:1}; let x0={a:a0,l:c1}.l; let x1=m0.put("z",a1).l;
+    x0.append(a0).size()*10+x1.append(a1)[3]`
+   c1 has spare capacity (len 3, cap 6 under this policy) and is reached through a map literal built by the evaluation (x0) and through
+   a wrapper of the constant map m0 (x1): the first evaluation appends twice to the ONE shared object (the first append
+   writes into the shared array and caps the constant: cap 3), builds a ListMap in the map heap - and every evaluation
+   with the arguments (5, 7) gives 47, the specification's value; reading the list field of a map that has none fails,
+   before and after any history *)
+Example C10_mixed_nonvacuous :
+  let cp := mkCaps (fun n => 2 * n) (fun n => 2 * n) in
+  let kl := [108%N] in let kn := [110%N] in let ka := [97%N] in let kz := [122%N] in
+  let p := mkXP [DL (LLit [1; 2]%Z); DL (LAppend (LConst 0) (ZS (SLit 3)))] []
+                [XMLit [(kl, XVList 1); (kn, XVInt (SLit 1))]]
+                [XBList (XMLit [(ka, XVInt (SArg 0)); (kl, XVList 1)]) kl; XBList (XMPut (XMConst 0) kz (XVInt (SArg 1))) kl]
+                (XB (BZ (ZAdd (ZMul (ZSize (LAppend (LConst 2) (ZS (SArg 0)))) (ZS (SLit 10)))
+                              (ZIndex (LAppend (LConst 3) (ZS (SArg 1))) (ZS (SLit 3)))))) in
+  let q := mkXP [DL (LLit [4]%Z)] [] [XMLit [(kn, XVInt (SLit 1))]] [XBList (XMPut (XMConst 0) ka (XVInt (SArg 0))) kl] (XB (BZ (ZSize (LConst 1)))) in
+  let g1 := xrun_event cp new_xgenerator (XEGen p) in
+  let g2 := xrun_event cp g1 (XEEval 0 [5; 7]%Z 0) in
+  xgstate_ok g1 /\ length (xg_funcs g1) = 1 /\ xprog_wt p = true /\ xprog_wt q = true /\
+  repr (xg_heap g1) 1 = (true, 3, 6) /\ repr (xg_heap g2) 1 = (true, 3, 3) /\
+  length (mh_arrs (xg_mh g1)) = 1 /\ length (mh_arrs (xg_mh g2)) = 2 /\
+  sp_xprog p [5; 7]%Z 0 = Some (XO (FuncState.OInt 47)) /\
+  xeval_after cp g1 [] 0 [5; 7]%Z 0 = XO (FuncState.OInt 47) /\
+  xeval_after cp g1 [XEEval 0 [5; 7]%Z 0; XEEval 0 [1; 2]%Z 0; XEGen q; XEEval 1 [0]%Z 0; XEMapOps [MLit [(ka, 3%Z)]]] 0 [5; 7]%Z 0 = XO (FuncState.OInt 47) /\
+  sp_xprog q [0]%Z 0 = Some (XO FuncState.OErr) /\
+  xeval_after cp g1 [XEGen q; XEEval 0 [5; 7]%Z 0] 1 [0]%Z 0 = XO FuncState.OErr.
+Proof.
+  cbv zeta. split; [apply (C10_mixed_reachable_states_ok _ [XEGen _])|]. vm_compute. repeat split; reflexivity.
+Qed.
+
+(* non-vacuity for LISTS OF LISTS (the `nested-const` shape):
+   `let c0=[1,2]; let c1=c0.map(e->e+1); let c2=[3]; let c3=c2.append(4); let o0=[c1,c3]; let c4=o0[a0]; c4.append(a1)`
+   the inner lists are shared objects (c1 lazy, c3 with spare capacity) held by the outer constant; an evaluation
+   materialises / appends to the inner list it obtained by index - the representation of c1 and c3 changes, the outer
+   list and what every later evaluation sees do not *)
+Example C10_list_of_lists_nonvacuous :
+  let cp := mkCaps (fun n => 2 * n) (fun n => 2 * n) in
+  let p := mkXP [DL (LLit [1; 2]%Z); DL (LMap (SLit 1) (LConst 0)); DL (LLit [3]%Z); DL (LAppend (LConst 2) (ZS (SLit 4)))]
+                [[1; 3]] [] [XBIndex 0 (SArg 0)] (XB (BL (LAppend (LConst 4) (ZS (SArg 1))))) in
+  let g1 := xrun_event cp new_xgenerator (XEGen p) in
+  let g2 := xrun_hist cp g1 [XEEval 0 [1; 9]%Z 9; XEEval 0 [0; 8]%Z 0] in
+  xgstate_ok g1 /\ length (xg_funcs g1) = 1 /\ xprog_wt p = true /\
+  icontent (xg_heap g1) 4 = [1; 3]%Z /\ icontent (xg_heap g2) 4 = [1; 3]%Z /\
+  repr (xg_heap g1) 1 = (false, 0, 0) /\ repr (xg_heap g2) 1 = (true, 2, 2) /\
+  repr (xg_heap g1) 3 = (true, 2, 4) /\ repr (xg_heap g2) 3 = (true, 2, 2) /\
+  sp_xprog p [1; 9]%Z 9 = Some (XO (FuncState.OList [3; 4; 9]%Z)) /\
+  xeval_after cp g1 [] 0 [1; 9]%Z 9 = XO (FuncState.OList [3; 4; 9]%Z) /\
+  xeval_after cp g1 [XEEval 0 [1; 9]%Z 9; XEEval 0 [0; 8]%Z 0; XEGen p; XEEval 1 [1; 7]%Z 1] 0 [1; 9]%Z 9 = XO (FuncState.OList [3; 4; 9]%Z) /\
+  xeval_after cp g1 [XEEval 0 [1; 9]%Z 9] 0 [0; 5]%Z 9 = XO (FuncState.OList [2; 3; 5]%Z) /\
+  sp_xprog p [2; 0]%Z 9 = Some (XO FuncState.OErr) /\
+  xeval_after cp g1 [XEEval 0 [1; 9]%Z 9] 0 [2; 0]%Z 9 = XO FuncState.OErr.
+Proof.
+  cbv zeta. split; [apply (C10_mixed_reachable_states_ok _ [XEGen _])|]. vm_compute. repeat split; reflexivity.
+Qed.
+
+(* non-vacuity for STRING results: `let c0=[1,2,3]; let m0={l:c0,n:7}; let n0=m0.put("z",a0).z; let n1=m0.put("z",a0).n;
+   "z="+n0+";n="+n1+";"+(a1*2)` - immutable scalars, no heap step after the lets *)
+Example C10_string_result_nonvacuous :
+  let cp := mkCaps (fun n => 2 * n) (fun n => 2 * n) in
+  let kl := [108%N] in let kn := [110%N] in let kz := [122%N] in
+  let p := mkXP [DL (LLit [1; 2; 3]%Z)] [] [XMLit [(kl, XVList 0); (kn, XVInt (SLit 7))]]
+                [XBInt (XMPut (XMConst 0) kz (XVInt (SArg 0))) kz; XBInt (XMPut (XMConst 0) kz (XVInt (SArg 0))) kn]
+                (XBStr [XSLit [122; 61]%N; XSInt (SCst 0); XSLit [59; 110; 61]%N; XSInt (SCst 1); XSLit [59]%N; XSInt (SMul (SArg 1) (SLit 2))]) in
+  let g1 := xrun_event cp new_xgenerator (XEGen p) in
+  xprog_wt p = true /\
+  sp_xprog p [-5; 21]%Z 0 = Some (XOStr [122; 61; 45; 53; 59; 110; 61; 55; 59; 52; 50]%N) /\
+  xeval_after cp g1 [XEEval 0 [1; 2]%Z 0; XEGen p; XEEval 1 [0; 0]%Z 0] 0 [-5; 21]%Z 0 = XOStr [122; 61; 45; 53; 59; 110; 61; 55; 59; 52; 50]%N /\
+  xeval_after cp g1 [] 0 [0; 0]%Z 0 = XOStr [122; 61; 48; 59; 110; 61; 55; 59; 48]%N.
+Proof. vm_compute. repeat split; reflexivity. Qed.
+
 Print Assumptions C10_outcome_depends_on_content_only.
 Print Assumptions C10_eval_history_independent.
 Print Assumptions C10_reachable_states_ok.
@@ -152,3 +256,7 @@ Print Assumptions C10_iterate_twice_same.
 Print Assumptions C10_iterate_state_not_kept.
 Print Assumptions C10_iterate_shared_state_discriminates.
 Print Assumptions C10_stack_residue_irrelevant.
+Print Assumptions C10_mixed_eval_history_independent.
+Print Assumptions C10_mixed_reachable_states_ok.
+Print Assumptions C10_mixed_outcome_depends_on_content_only.
+Print Assumptions C10_mixed_generated_function_meets_spec.
